@@ -84,6 +84,20 @@ pub fn run(k: &str, c: &Value) -> Value {
             let m0 = mesh.surf_closest_to(&q);
             mesh.transform(&t);
             let m1 = mesh.surf_closest_to(&tq);
+            // a flat plate carrying a UV map (u, v) = (x, y): the UV answer for a point given in another frame together with
+            // the transform into the mesh frame, and for the moved scene
+            let uvj = |r: Option<(Point2, f64)>| r.map(|(uv, depth)| json!([hp2(&uv), hx(depth)]));
+            let (pv, pf) = { let mut v = vec![]; let mut f = vec![];
+                for j in 0..4 { for i in 0..4 { v.push(Point3::new(i as f64, j as f64, 0.0)); } }
+                for j in 0..3u32 { for i in 0..3u32 { let a = j * 4 + i; f.push([a, a + 1, a + 5]); f.push([a, a + 5, a + 4]); } }
+                (v, f) };
+            let uvm = engeom::geom3::mesh::UvMapping::new(pv.iter().map(|p| Point2::new(p.x, p.y)).collect(), pf.clone()).unwrap();
+            let plate = Mesh::new_with_uv(pv.clone(), pf.clone(), false, Some(uvm.clone()));
+            let mut plate_m = Mesh::new_with_uv(pv.clone(), pf.clone(), false, Some(uvm));
+            plate_m.transform(&t);
+            let half = std::f64::consts::FRAC_PI_2;
+            let uvs = json!({"direct": uvj(plate.uv_with_tol(&q, 1e3, half, None)), "via": uvj(plate.uv_with_tol(&(t.inverse() * q), 1e3, half, Some(&t))),
+                             "moved": uvj(plate_m.uv_with_tol(&tq, 1e3, half, None)), "moved_via": uvj(plate_m.uv_with_tol(&q, 1e3, half, Some(&t)))});
             // distances 2d <-> 3d
             // an explicit (oblique, possibly opposing) measuring direction, or the default a -> b
             let dir2 = if c["dir2"].is_null() { None } else { Some(UnitVec2::new_normalize(v2(&c["dir2"]))) };
@@ -98,6 +112,7 @@ pub fn run(k: &str, c: &Value) -> Value {
                    "cloud": {"pts": c1, "normals": n1, "normals0": normals.iter().map(|v| hv3(&v.into_inner())).collect::<Vec<_>>(),
                              "back": cloud.points().iter().map(hp3).collect::<Vec<_>>(), "seq": seq.points().iter().map(hp3).collect::<Vec<_>>(),
                              "comp": comp.points().iter().map(hp3).collect::<Vec<_>>(), "vec": vecs.iter().map(hp3).collect::<Vec<_>>()},
+                   "uv": uvs,
                    "mesh": {"p0": hp3(&m0.point), "n0": hv3(&m0.normal.into_inner()), "p1": hp3(&m1.point), "n1": hv3(&m1.normal.into_inner())},
                    "dist": {"dir2": hv2(&d2.direction.into_inner()), "dir3": hv3(&d3.direction.into_inner()), "v2": hx(d2.value()), "v3": hx(d3.value()), "v2b": hx(d2b.value()), "a3": hp3(&d3.a), "b3": hp3(&d3.b)}})
         }
